@@ -61,6 +61,8 @@ def load_contracts(src):
         _al.register_select_build(src)
         import contracts.lazyarray as _lza
         _lza.register_lazyarray(src)
+        import contracts.lazylemmas as _lzl
+        _lzl.make(src)
         import contracts.foldlemmas  # noqa  (lemmas over the Array folds; needs the fold definitions registered above)
     import contracts.classes as cc
     gens = cc.generic_contracts(src)
@@ -243,7 +245,9 @@ def run(pid, tier, seed, a, t0):
     # ---- supporting contracts: a ghost proof is a proof over the contracts it applies; those contracts (and, transitively,
     # the contracts THEY apply) must hold of the code.  Their functional clauses are verified here as part of this property.
     if P.get('closure_tags'):
-        done = set(fun_quals) if P.get('functional', True) else set()
+        # functions already verified above WITH this property's clauses; a contract the ghost programs apply that carries no clause
+        # of this property was selected above with nothing to prove and is verified here under its own (closure) tags
+        done = {q for q in fun_quals if pid in (contract.REGISTRY[q].tags or ())} if P.get('functional', True) else set()
         pending = {q for q in contract.USE_LOG if q in contract.REGISTRY and contract.REGISTRY[q].setup is not None and not contract.REGISTRY[q].generic} - done
         pending |= {q for q in P.get('closure', ()) if q in contract.REGISTRY}       # contracts a lemma-level argument rests on, named explicitly
         while pending:
